@@ -800,6 +800,47 @@ func ruleKeyMapLookupN(c *Ctx, r *Report, floor int, rel string, files ...string
 			n++
 			key := fmt.Sprintf("%s:key-lookup#%d", f.Name, n)
 			if as, ok := pm[ix].(*ast.AssignStmt); ok && len(as.Lhs) == 2 && len(as.Rhs) == 1 {
+				// the looked-up value may be compared with a non-constant (or empty) value only
+				// where `ok` is known to be true: a missing key yields "" as well.
+				vObj, okObj := ObjOf(info, as.Lhs[0]), ObjOf(info, as.Lhs[1])
+				var early ast.Expr
+				if vObj != nil && okObj != nil {
+					ast.Inspect(f.Decl.Body, func(y ast.Node) bool {
+						be, isBin := y.(*ast.BinaryExpr)
+						if !isBin || (be.Op != token.EQL && be.Op != token.NEQ) || early != nil {
+							return early == nil
+						}
+						var other ast.Expr
+						switch {
+						case ObjOf(info, be.X) == vObj:
+							other = be.Y
+						case ObjOf(info, be.Y) == vObj:
+							other = be.X
+						default:
+							return true
+						}
+						if v, isC := ConstOf(info, other); isC && v != `""` {
+							return true
+						}
+						guarded := false
+						for _, ft := range c.FactsAt(f, be, false) {
+							if ft.Kind == "cond" && ObjOf(info, ft.Cond) == okObj {
+								guarded = true // either outcome of ok is known here
+							}
+						}
+						if !guarded {
+							guarded = consultedBefore(c, f, be, okObj)
+						}
+						if !guarded {
+							early = be
+						}
+						return early == nil
+					})
+				}
+				if early != nil {
+					r.Bad(key, c.Pos(early.Pos()), fmt.Sprintf("%s compares the looked-up value in %s although the presence flag %s has not been consulted on that path: a key that is missing from the map yields \"\" and compares equal to a key whose value is the empty string", f.Name, types.ExprString(early), okObj.Name()))
+					return true
+				}
 				r.OK(key, c.Pos(ix.Pos()), "comma-ok lookup")
 				return true
 			}
@@ -863,4 +904,49 @@ func ruleKeyMapLookupN(c *Ctx, r *Report, floor int, rel string, files ...string
 			return true
 		})
 	}
+}
+
+// consultedBefore: on the way to n, an earlier statement of an enclosing statement list tested obj
+// (an if or a tagless switch whose condition mentions obj) and left the list in the arm that
+// mentions it — the guard-clause form of consulting a presence flag.
+func consultedBefore(c *Ctx, f *FuncInfo, n ast.Node, obj types.Object) bool {
+	info := f.Info()
+	pm := c.parentMap(f.File)
+	mentions := func(e ast.Node) bool { return e != nil && mentionsObj(info, e, obj) }
+	child := n
+	for p := pm[child]; p != nil; child, p = p, pm[p] {
+		var list []ast.Stmt
+		switch b := p.(type) {
+		case *ast.BlockStmt:
+			list = b.List
+		case *ast.CaseClause:
+			list = b.Body
+		case *ast.FuncDecl, *ast.FuncLit:
+			return false
+		}
+		for _, st := range list {
+			if ast.Node(st) == child {
+				break
+			}
+			switch x := st.(type) {
+			case *ast.IfStmt:
+				if mentions(x.Cond) && terminates(info, x.Body.List) {
+					return true
+				}
+			case *ast.SwitchStmt:
+				if x.Tag != nil {
+					continue
+				}
+				for _, cc := range x.Body.List {
+					cl := cc.(*ast.CaseClause)
+					for _, e := range cl.List {
+						if mentions(e) && terminates(info, cl.Body) {
+							return true
+						}
+					}
+				}
+			}
+		}
+	}
+	return false
 }
